@@ -36,6 +36,7 @@ var ExtraConfig = []Seed{
 	{"comment-in-block-header", "blk /* c1 */ \"l\" /* c2 */ {\n  a = 1\n}\n"},
 	{"index-empty-string", "a = foo[\"\"]\nb = \"${foo[\"\"]}\"\n"},
 	{"splat-legacy", "a = foo.*.bar.0\nb = foo.*.0\n"},
+	{"obj-key-tmpl", "a = {\n  \"${foo.bar}-n\" = bar\n  \"k${x.bar}\" : \"${baz.bar}\"\n}\n"},
 }
 
 var ExtraTemplate = []Seed{
